@@ -782,9 +782,9 @@ theorem split_cover {env : EnumEnv} {T : Ty} {heads : List Ctor} {v0 : Val} (hv 
 /-- a missing constructor has a value outside the head constructors that its witness pattern covers -/
 theorem split_missing {env : EnumEnv} (hinh : ∀ T, ∃ v, hasTy env v T = true) {T : Ty} {heads : List Ctor}
     {m : Ctor} (hm : m ∈ (split (ctorsForTy env T) heads).2) :
-    ∃ v0, hasTy env v0 T = true ∧ ctorOf T v0 ∉ heads ∧ dmatch (missingFromCtor m T) v0 = true := by
+    ∃ v0, hasTy env v0 T = true ∧ ctorOf T v0 ∉ heads ∧ dmatch (missingFromCtor env m T) v0 = true := by
   have hunl : (T = .int ∨ T = .float ∨ T = .string) → ctorsForTy env T = .unlistable →
-      ∃ v0, hasTy env v0 T = true ∧ ctorOf T v0 ∉ heads ∧ dmatch (missingFromCtor m T) v0 = true := by
+      ∃ v0, hasTy env v0 T = true ∧ ctorOf T v0 ∉ heads ∧ dmatch (missingFromCtor env m T) v0 = true := by
     intro hT hc
     rw [hc] at hm; simp only [split] at hm
     split at hm <;> simp at hm
@@ -793,7 +793,7 @@ theorem split_missing {env : EnumEnv} (hinh : ∀ T, ∃ v, hasTy env v T = true
     refine ⟨v0, h1, h2, ?_⟩
     rcases hT with h | h | h <;> subst h <;> simp [missingFromCtor, dmatch]
   have hprod : ctorsForTy env T = .product →
-      ∃ v0, hasTy env v0 T = true ∧ ctorOf T v0 ∉ heads ∧ dmatch (missingFromCtor m T) v0 = true := by
+      ∃ v0, hasTy env v0 T = true ∧ ctorOf T v0 ∉ heads ∧ dmatch (missingFromCtor env m T) v0 = true := by
     intro hc
     rw [hc] at hm; simp only [split] at hm
     split at hm <;> simp at hm
@@ -836,7 +836,8 @@ theorem split_missing {env : EnumEnv} (hinh : ∀ T, ∃ v, hasTy env v T = true
       intro hc
       have := (mem_presentVariants e _ heads [] i).2 (Or.inr ⟨hi, hc⟩)
       simp_all
-    · simp [missingFromCtor, dmatch]
+    · simp only [missingFromCtor]
+      split <;> simp [dmatch, dmatchAll, wildOf]
 
 /-- a wildcard among the present constructors: the type is unlistable, so a fresh value exists -/
 theorem split_wild {env : EnumEnv} {T : Ty} {heads : List Ctor} (hw : HeadsWT env T heads) {c : Ctor}
@@ -1049,11 +1050,12 @@ theorem good_or {env : EnumEnv} {T : Ty} {Ts : List Ty} {rows : List Row} {cf : 
 /-! ## The constructor loop -/
 
 /-- what one loop iteration does to the child witnesses -/
-def transform (c : Ctor) (arity : Nat) (missing : List Ctor) (T : Ty) (W : List (List DPat)) : List (List DPat) :=
-  if c.isNonExh then applyMissing missing T W else applyConstructor c arity T W
+def transform (env : EnumEnv) (c : Ctor) (arity : Nat) (missing : List Ctor) (T : Ty) (W : List (List DPat)) :
+    List (List DPat) :=
+  if c.isNonExh then applyMissing env missing T W else applyConstructor c arity T W
 
-theorem mem_transform {c : Ctor} {a : Nat} {missing : List Ctor} {T : Ty} {W : List (List DPat)} {w1 : List DPat} :
-    w1 ∈ transform c a missing T W ↔ ∃ w0 ∈ W, w1 ∈ transform c a missing T [w0] := by
+theorem mem_transform {env : EnumEnv} {c : Ctor} {a : Nat} {missing : List Ctor} {T : Ty} {W : List (List DPat)} {w1 : List DPat} :
+    w1 ∈ transform env c a missing T W ↔ ∃ w0 ∈ W, w1 ∈ transform env c a missing T [w0] := by
   unfold transform
   split
   · unfold applyMissing
@@ -1066,8 +1068,8 @@ theorem mem_transform {c : Ctor} {a : Nat} {missing : List Ctor} {T : Ty} {W : L
   · simp only [applyConstructor, List.mem_map, List.map_cons, List.map_nil, List.mem_singleton]
     constructor <;> rintro ⟨w0, h, h'⟩ <;> exact ⟨w0, h, h'.symm⟩
 
-theorem transform_nil {c : Ctor} {a : Nat} {missing : List Ctor} {T : Ty} {W : List (List DPat)}
-    (h : transform c a missing T W = []) : W = [] := by
+theorem transform_nil {env : EnumEnv} {c : Ctor} {a : Nat} {missing : List Ctor} {T : Ty} {W : List (List DPat)}
+    (h : transform env c a missing T W = []) : W = [] := by
   unfold transform at h
   split at h
   · unfold applyMissing at h
@@ -1120,7 +1122,7 @@ structure CtorOK (env : EnumEnv) (T : Ty) (Ts : List Ty) (rows : List Row) (miss
     ∃ vs, hasTys env vs (T :: Ts) = true ∧
       firstMatch rows vs = firstParent (specialize env c (c.arity env T) rows) us
   wit : ∀ us, hasTys env us (specTys env T c ++ Ts) = true → ∀ w0, dmatchAll w0.reverse us = true →
-    ∀ w1 ∈ transform c (c.arity env T) missing T [w0],
+    ∀ w1 ∈ transform env c (c.arity env T) missing T [w0],
       ∃ vs, hasTys env vs (T :: Ts) = true ∧
         firstMatch rows vs = firstParent (specialize env c (c.arity env T) rows) us ∧
         dmatchAll w1.reverse vs = true
@@ -1196,7 +1198,7 @@ theorem ctorOK_nonExh {env : EnumEnv} (hinh : ∀ T, ∃ v, hasTy env v T = true
       ∃ v0, hasTys env (v0 :: us) (T :: Ts) = true ∧
         firstMatch rows (v0 :: us) =
           firstParent (specialize env (.wild .nonExh) ((Ctor.wild .nonExh).arity env T) rows) us ∧
-        dmatch (missingFromCtor m T) v0 = true := by
+        dmatch (missingFromCtor env m T) v0 = true := by
     intro m hm us hus
     obtain ⟨v0, hv0, hfresh, hmatch⟩ := split_missing hinh hm
     exact ⟨v0, by simpa [hasTys, hv0, specTys] using hus, (class_default hwt hno us hv0 hfresh _).symm, hmatch⟩
@@ -1249,8 +1251,8 @@ theorem loop_step {env : EnumEnv} {rec : List Ty → List Row → Option Result}
     simp only [hr, Option.some.injEq] at hstep
     subst hstep
     have G := hrec _ _ _ (rowsWT_specialize hwt hno c) hr
-    have htr : (if c.isNonExh = true then applyMissing missing T w else applyConstructor c (c.arity env T) T w) =
-        transform c (c.arity env T) missing T w := rfl
+    have htr : (if c.isNonExh = true then applyMissing env missing T w else applyConstructor c (c.arity env T) T w) =
+        transform env c (c.arity env T) missing T w := rfl
     rw [htr]
     refine ⟨by simp [unspecialize_length, hinv.len], ?_, ?_, ?_⟩
     · intro i hi
